@@ -250,13 +250,9 @@ where
                         // new params are based on the path it matched (up to the point where the matched child begins)
                         // e.g., if we have /:foo?/bar, for /bar we should *not* have { "foo": "bar" }
                         // so, we re-parse based on "" to yield { "foo": "" }
-                        let matched = inner
-                            .as_ref()
-                            .map(|inner| inner.as_matched())
-                            .unwrap_or("");
-                        let rematch = path
-                            .trim_end_matches(&format!("{matched}{remaining}"));
-                        let new_partial = self.segments.test(rematch)?;
+                        // (the children were just matched against the whole of `path`, so the matched
+                        // child begins at its start, whatever children of its own it has)
+                        let new_partial = self.segments.test("")?;
                         params = new_partial.params;
                     }
 
